@@ -59,8 +59,9 @@ def units(tier):
                     us.append(dict(h="items", raw=raw, j=j, o=o, amp=amp, var=var, sym=sym, ic=ic, cost=1))
     for k, src in enumerate(STREAMS):
         for n in ((4, 6) if q else (4, 6, 8)):
-            us.append(dict(h="putback", stream=k, nops=n, ic=False, cost=5))
-            us.append(dict(h="putback", stream=k, nops=n, ic=True, cost=5))
+            for skip in (0, 4, 7):
+                us.append(dict(h="putback", stream=k, nops=n, skip=skip, ic=False, cost=5))
+                us.append(dict(h="putback", stream=k, nops=n, skip=skip, ic=True, cost=5))
     return us
 
 
@@ -192,6 +193,9 @@ def putback(ctx):
     r = FortranStringReader(src, ignore_comments=p["ic"], include_dirs=[d])
     pos = 0            # index in ref of the next item the reader should deliver
     held = []          # items got and not yet put back (most recent last)
+    for _ in range(p.get("skip", 0)):
+        if r.get_item() is not None:
+            pos += 1
     sched = []
     for k in range(p["nops"]):
         op = ctx.choose("op%d" % k, 3)
